@@ -5,7 +5,10 @@ import PymocaVerif.Lemmas.XmlTree
 Property theorems only (helper lemmas: `Lemmas/XmlTree.lean`; model: `Model/XmlTree.lean`).
 All statements are for flat models of any size and expression trees of any depth and arity.
 `kept m` is `m` with, of each variable's prefixes, only the variability, and, of each when-equation, only the
-first branch: what the proofs show the XML to mirror; `elsewhen_branches_lost` shows that the rest is lost.
+first branch: what the proofs show the XML to mirror.  On the tree as it is now (`Cfg.fixed`: commits 4e2bf7e,
+8d9d442) a when-equation with further branches is refused, so nothing of the equations is ever lost
+(`rejecting_elsewhen_loses_nothing`); `elsewhen_branches_lost` and `signed_start_raises_as_is` record what the
+tree did before (findings C25-F1, C25-F2).
 -/
 namespace PymocaVerif.XmlTree
 
@@ -90,7 +93,7 @@ theorem raises_iff (cfg : Cfg) (m : Flat) : encode cfg m = none ↔ m.classes.al
   · simp [h]
   · simp [h]
 
-/-- With the proposed check on `elsewhen` (`rejectElse`), whatever is generated mirrors *every* equation of
+/-- With the check on `elsewhen` (`rejectElse`, the current tree), whatever is generated mirrors *every* equation of
     the flat model exactly: nothing is lost. -/
 theorem rejecting_elsewhen_loses_nothing (cfg : Cfg) (hc : cfg.rejectElse = true) (m : Flat) (x : Xml)
     (h : encode cfg m = some x) :
@@ -99,7 +102,7 @@ theorem rejecting_elsewhen_loses_nothing (cfg : Cfg) (hc : cfg.rejectElse = true
 
 example : Cfg.fixed.rejectElse = true := rfl
 
-/-- Finding C25-F1: without that check the `elsewhen` branches of a when-equation leave no trace — two
+/-- Finding C25-F1 (fixed by 8d9d442): without that check the `elsewhen` branches of a when-equation leave no trace — two
     different flat models, one XML. -/
 theorem elsewhen_branches_lost (cfg : Cfg) (hc : cfg.rejectElse = false) :
     let q₁ := Eqn.when (.ref "a") [.equal (.ref "d") (.lit "1")] [] []
@@ -110,7 +113,7 @@ theorem elsewhen_branches_lost (cfg : Cfg) (hc : cfg.rejectElse = false) :
   refine ⟨?_, ?_, rfl⟩ <;>
     simp [encode, okCls, okQs, okQ, okE, okEs, enc, encCls, encQs, encQ, hc]
 
-/-- Finding C25-F2: on the tree as it is a signed or computed `start` makes generation raise; with attribute
+/-- Finding C25-F2 (fixed by 4e2bf7e): on the tree before it a signed or computed `start` makes generation raise; with attribute
     values built from the expression's element it is mirrored like any other expression. -/
 theorem signed_start_raises_as_is :
     let m : Flat := ⟨[⟨"M", [⟨"x", "Real", [], some (.op "-" [.lit "1"]), none, false⟩], []⟩]⟩
